@@ -344,7 +344,13 @@ func checkC07(c C07Case, o *h.Obs) *h.Fail {
 		}
 		return nil
 	}
-	X := vecBig(toW(c.X), bigBase)
+	// vectors of hundreds of thousands of words: the math/big model (quadratic to build) is replaced by the assembly /
+	// portable-twin comparison plus, for the carry chains of add10VV / sub10VV, a word-by-word reference written here
+	giant := n > 40000
+	var X *big.Int
+	if !giant {
+		X = vecBig(toW(c.X), bigBase)
+	}
 	switch c.K {
 	case "mul10WW":
 		a1, a0 := K.Mul10WW(decimal.Word(c.W), decimal.Word(c.W2))
@@ -389,6 +395,41 @@ func checkC07(c C07Case, o *h.Obs) *h.Fail {
 		if f := cmp(a, g); f != nil {
 			return f
 		}
+		if giant {
+			o.Labelf("%s:giant", c.K)
+			if c.K == "add10VV" || c.K == "sub10VV" {
+				var carry uint64
+				for i := 0; i < n; i++ {
+					var w uint64
+					if c.K == "add10VV" {
+						sum := c.X[i] + c.Y[i] + carry // < 2*10^19 < 2^65: may wrap
+						wrapped := sum < c.X[i]
+						carry = 0
+						if wrapped || sum >= h.Base {
+							sum -= h.Base // (wraps back into range when the sum had wrapped)
+							carry = 1
+						}
+						w = sum
+					} else {
+						d := c.X[i] - c.Y[i] - carry
+						if c.X[i] < c.Y[i]+carry {
+							d += h.Base
+							carry = 1
+						} else {
+							carry = 0
+						}
+						w = d
+					}
+					if uint64(a.z[i]) != w {
+						return fail("math", "word %d of the result is %d, the word-by-word reference gives %d", i, a.z[i], w)
+					}
+				}
+				if uint64(a.c) != carry {
+					return fail("math", "carry out %d, the word-by-word reference gives %d", a.c, carry)
+				}
+			}
+			return nil
+		}
 		Y := vecBig(toW(c.Y), bigBase)
 		Bn := new(big.Int).Exp(bigBase, big.NewInt(int64(n)), nil)
 		got := vecBig(a.z, bigBase)
@@ -416,6 +457,41 @@ func checkC07(c C07Case, o *h.Obs) *h.Fail {
 		if f := cmp(a, g); f != nil {
 			return f
 		}
+		if giant {
+			o.Labelf("%s:giant", c.K)
+			if c.K == "add10VV" || c.K == "sub10VV" {
+				var carry uint64
+				for i := 0; i < n; i++ {
+					var w uint64
+					if c.K == "add10VV" {
+						sum := c.X[i] + c.Y[i] + carry // < 2*10^19 < 2^65: may wrap
+						wrapped := sum < c.X[i]
+						carry = 0
+						if wrapped || sum >= h.Base {
+							sum -= h.Base // (wraps back into range when the sum had wrapped)
+							carry = 1
+						}
+						w = sum
+					} else {
+						d := c.X[i] - c.Y[i] - carry
+						if c.X[i] < c.Y[i]+carry {
+							d += h.Base
+							carry = 1
+						} else {
+							carry = 0
+						}
+						w = d
+					}
+					if uint64(a.z[i]) != w {
+						return fail("math", "word %d of the result is %d, the word-by-word reference gives %d", i, a.z[i], w)
+					}
+				}
+				if uint64(a.c) != carry {
+					return fail("math", "carry out %d, the word-by-word reference gives %d", a.c, carry)
+				}
+			}
+			return nil
+		}
 		Bn := new(big.Int).Exp(bigBase, big.NewInt(int64(n)), nil)
 		got := vecBig(a.z, bigBase)
 		var want *big.Int
@@ -442,6 +518,41 @@ func checkC07(c C07Case, o *h.Obs) *h.Fail {
 		g := run(func(z, x, _ []decimal.Word) decimal.Word { return fg(z, x, c.S) }, up)
 		if f := cmp(a, g); f != nil {
 			return f
+		}
+		if giant {
+			o.Labelf("%s:giant", c.K)
+			if c.K == "add10VV" || c.K == "sub10VV" {
+				var carry uint64
+				for i := 0; i < n; i++ {
+					var w uint64
+					if c.K == "add10VV" {
+						sum := c.X[i] + c.Y[i] + carry // < 2*10^19 < 2^65: may wrap
+						wrapped := sum < c.X[i]
+						carry = 0
+						if wrapped || sum >= h.Base {
+							sum -= h.Base // (wraps back into range when the sum had wrapped)
+							carry = 1
+						}
+						w = sum
+					} else {
+						d := c.X[i] - c.Y[i] - carry
+						if c.X[i] < c.Y[i]+carry {
+							d += h.Base
+							carry = 1
+						} else {
+							carry = 0
+						}
+						w = d
+					}
+					if uint64(a.z[i]) != w {
+						return fail("math", "word %d of the result is %d, the word-by-word reference gives %d", i, a.z[i], w)
+					}
+				}
+				if uint64(a.c) != carry {
+					return fail("math", "carry out %d, the word-by-word reference gives %d", a.c, carry)
+				}
+			}
+			return nil
 		}
 		if n > 0 {
 			p := new(big.Int).Exp(big.NewInt(10), big.NewInt(int64(c.S)), nil)
@@ -479,6 +590,41 @@ func checkC07(c C07Case, o *h.Obs) *h.Fail {
 		if f := cmp(a, g); f != nil {
 			return f
 		}
+		if giant {
+			o.Labelf("%s:giant", c.K)
+			if c.K == "add10VV" || c.K == "sub10VV" {
+				var carry uint64
+				for i := 0; i < n; i++ {
+					var w uint64
+					if c.K == "add10VV" {
+						sum := c.X[i] + c.Y[i] + carry // < 2*10^19 < 2^65: may wrap
+						wrapped := sum < c.X[i]
+						carry = 0
+						if wrapped || sum >= h.Base {
+							sum -= h.Base // (wraps back into range when the sum had wrapped)
+							carry = 1
+						}
+						w = sum
+					} else {
+						d := c.X[i] - c.Y[i] - carry
+						if c.X[i] < c.Y[i]+carry {
+							d += h.Base
+							carry = 1
+						} else {
+							carry = 0
+						}
+						w = d
+					}
+					if uint64(a.z[i]) != w {
+						return fail("math", "word %d of the result is %d, the word-by-word reference gives %d", i, a.z[i], w)
+					}
+				}
+				if uint64(a.c) != carry {
+					return fail("math", "carry out %d, the word-by-word reference gives %d", a.c, carry)
+				}
+			}
+			return nil
+		}
 		Bn := new(big.Int).Exp(bigBase, big.NewInt(int64(n)), nil)
 		want := new(big.Int).Add(new(big.Int).Mul(X, u(c.W)), u(c.W2))
 		got := new(big.Int).Add(vecBig(a.z, bigBase), new(big.Int).Mul(u(uint64(a.c)), Bn))
@@ -496,6 +642,41 @@ func checkC07(c C07Case, o *h.Obs) *h.Fail {
 		if f := cmp(a, g); f != nil {
 			return f
 		}
+		if giant {
+			o.Labelf("%s:giant", c.K)
+			if c.K == "add10VV" || c.K == "sub10VV" {
+				var carry uint64
+				for i := 0; i < n; i++ {
+					var w uint64
+					if c.K == "add10VV" {
+						sum := c.X[i] + c.Y[i] + carry // < 2*10^19 < 2^65: may wrap
+						wrapped := sum < c.X[i]
+						carry = 0
+						if wrapped || sum >= h.Base {
+							sum -= h.Base // (wraps back into range when the sum had wrapped)
+							carry = 1
+						}
+						w = sum
+					} else {
+						d := c.X[i] - c.Y[i] - carry
+						if c.X[i] < c.Y[i]+carry {
+							d += h.Base
+							carry = 1
+						} else {
+							carry = 0
+						}
+						w = d
+					}
+					if uint64(a.z[i]) != w {
+						return fail("math", "word %d of the result is %d, the word-by-word reference gives %d", i, a.z[i], w)
+					}
+				}
+				if uint64(a.c) != carry {
+					return fail("math", "carry out %d, the word-by-word reference gives %d", a.c, carry)
+				}
+			}
+			return nil
+		}
 		Bn := new(big.Int).Exp(bigBase, big.NewInt(int64(n)), nil)
 		want := new(big.Int).Add(vecBig(toW(c.Y), bigBase), new(big.Int).Mul(X, u(c.W)))
 		got := new(big.Int).Add(vecBig(a.z, bigBase), new(big.Int).Mul(u(uint64(a.c)), Bn))
@@ -512,6 +693,41 @@ func checkC07(c C07Case, o *h.Obs) *h.Fail {
 		if f := cmp(a, g); f != nil {
 			return f
 		}
+		if giant {
+			o.Labelf("%s:giant", c.K)
+			if c.K == "add10VV" || c.K == "sub10VV" {
+				var carry uint64
+				for i := 0; i < n; i++ {
+					var w uint64
+					if c.K == "add10VV" {
+						sum := c.X[i] + c.Y[i] + carry // < 2*10^19 < 2^65: may wrap
+						wrapped := sum < c.X[i]
+						carry = 0
+						if wrapped || sum >= h.Base {
+							sum -= h.Base // (wraps back into range when the sum had wrapped)
+							carry = 1
+						}
+						w = sum
+					} else {
+						d := c.X[i] - c.Y[i] - carry
+						if c.X[i] < c.Y[i]+carry {
+							d += h.Base
+							carry = 1
+						} else {
+							carry = 0
+						}
+						w = d
+					}
+					if uint64(a.z[i]) != w {
+						return fail("math", "word %d of the result is %d, the word-by-word reference gives %d", i, a.z[i], w)
+					}
+				}
+				if uint64(a.c) != carry {
+					return fail("math", "carry out %d, the word-by-word reference gives %d", a.c, carry)
+				}
+			}
+			return nil
+		}
 		Bn := new(big.Int).Exp(bigBase, big.NewInt(int64(n)), nil)
 		num := new(big.Int).Add(new(big.Int).Mul(u(c.W2), Bn), X)
 		wq, wr := new(big.Int).QuoRem(num, u(c.W), new(big.Int))
@@ -527,6 +743,41 @@ func checkC07(c C07Case, o *h.Obs) *h.Fail {
 		}, true)
 		if f := cmp(a, g); f != nil {
 			return f
+		}
+		if giant {
+			o.Labelf("%s:giant", c.K)
+			if c.K == "add10VV" || c.K == "sub10VV" {
+				var carry uint64
+				for i := 0; i < n; i++ {
+					var w uint64
+					if c.K == "add10VV" {
+						sum := c.X[i] + c.Y[i] + carry // < 2*10^19 < 2^65: may wrap
+						wrapped := sum < c.X[i]
+						carry = 0
+						if wrapped || sum >= h.Base {
+							sum -= h.Base // (wraps back into range when the sum had wrapped)
+							carry = 1
+						}
+						w = sum
+					} else {
+						d := c.X[i] - c.Y[i] - carry
+						if c.X[i] < c.Y[i]+carry {
+							d += h.Base
+							carry = 1
+						} else {
+							carry = 0
+						}
+						w = d
+					}
+					if uint64(a.z[i]) != w {
+						return fail("math", "word %d of the result is %d, the word-by-word reference gives %d", i, a.z[i], w)
+					}
+				}
+				if uint64(a.c) != carry {
+					return fail("math", "carry out %d, the word-by-word reference gives %d", a.c, carry)
+				}
+			}
+			return nil
 		}
 		Xb := vecBig(toW(c.X), big2p64)
 		Bn := new(big.Int).Lsh(big.NewInt(1), uint(64*n))
@@ -567,6 +818,56 @@ func TestC07Grid(t *testing.T) {
 		}
 		h.RecordGrid("C07", o, c)
 		n++
+	}
+	// vectors of more than 2^18 words (5 million digits), where a kernel that works in blocks - to stay preemptible, or
+	// to fit a cache - has its seams: a carry or borrow that ripples through every word (word sums of exactly 10^19-1
+	// above a lowest pair that carries), in-array shifts, every vector kernel; destinations separate and in place
+	for _, l := range []int{1<<18 + 1, 1<<19 + 5, 600011} {
+		x, y := make([]uint64, l), make([]uint64, l)
+		for i := range x {
+			y[i] = next() % h.Base
+			x[i] = h.Base - 1 - y[i] // x[i] + y[i] = 10^19 - 1
+		}
+		x[0] = h.Base - y[0] // the lowest pair carries: the carry runs through all l words
+		if y[0] == 0 {
+			x[0], y[0] = h.Base-1, 1
+		}
+		eq := append([]uint64(nil), x...)
+		eq[0]++ // x - eq borrows at the lowest word and the borrow runs through all l words (x[i] - eq[i] = 0 above)
+		if eq[0] >= h.Base {
+			eq[0] = 1
+		}
+		rnd := make([]uint64, l)
+		for i := range rnd {
+			rnd[i] = 1 + next()%(h.Base-1)
+		}
+		for _, sh := range []string{"", "inplace", "inplace-y"} {
+			runCase(C07Case{K: "add10VV", X: x, Y: y, Shape: sh})
+			runCase(C07Case{K: "sub10VV", X: eq, Y: x, Shape: sh})
+			runCase(C07Case{K: "sub10VV", X: x, Y: eq, Shape: sh})
+		}
+		nines := make([]uint64, l)
+		zeros := make([]uint64, l)
+		for i := range nines {
+			nines[i] = h.Base - 1
+		}
+		for _, sh := range []string{"", "inplace"} {
+			runCase(C07Case{K: "add10VW", X: nines, W: 1, Shape: sh})
+			runCase(C07Case{K: "sub10VW", X: zeros, W: 1, Shape: sh})
+			runCase(C07Case{K: "mulAdd10VWW", X: rnd, W: h.Base - 1, W2: h.Base - 2, Shape: sh})
+			runCase(C07Case{K: "div10VWW", X: rnd, W: 7, W2: 6, Shape: sh})
+			for _, sft := range []uint{0, 1, 18} {
+				runCase(C07Case{K: "shl10VU", X: rnd, S: sft, Shape: sh})
+				runCase(C07Case{K: "shr10VU", X: rnd, S: sft, Shape: sh})
+			}
+		}
+		runCase(C07Case{K: "addMul10VVW", X: rnd, Y: nines, W: h.Base - 1})
+		for _, off := range []int{1, 3, l / 3, l - 1} {
+			runCase(C07Case{K: "shl10VU", X: rnd, S: 0, Shape: "overlap", Off: off})
+			runCase(C07Case{K: "shl10VU", X: rnd, S: 11, Shape: "overlap", Off: off})
+			runCase(C07Case{K: "shr10VU", X: rnd, S: 0, Shape: "overlap", Off: off})
+			runCase(C07Case{K: "shr10VU", X: rnd, S: 5, Shape: "overlap", Off: off})
+		}
 	}
 	// long in-array shifts: block-copy fast paths start at sizes of their own (kilobytes, pages, 64 KiB) and must get
 	// the overlap direction right for every distance between source and destination, not only for neighbours
